@@ -77,6 +77,13 @@ def step (s : S) (line : String) : S × String :=
     match (nat? k).bind (lookup c s.st) with
     | some l => ({ s with st := reportBad s.st l }, "ok")
     | none => (s, "bad-op")
+  | "hcorrupt" :: lks =>          -- integrity callback(false) for what a hierarchical read of these lookup keys serves now
+    match allNats? lks with
+    | some lks =>
+      match leastSpecific c s.st lks with
+      | some (_, l) => ({ s with st := reportBad s.st l }, "ok")
+      | none => (s, "bad-op")
+    | none => (s, "bad-op")
   | "write" :: n :: at_ :: rest =>  -- write <op> <at> <byte>...
     match nat? n, nat? at_, allNats? rest with
     | some n, some at_, some bytes =>
